@@ -18,8 +18,8 @@ package slog
 //@   requires [C10.opts] forall(i, 0, len(args), implies(typeis(args[i], Opt), dyn(args[i], Opt) != nil))
 //@   loop 1 invariant s != nil && fresh(s) && (cap(todo) == 0 || fresh(todo))
 //@   loop 1 invariant implies(forall(j, 0, rangeindex+1, !typeis(args[j], Opt)), s.owner == parent)
-//@   loop 1 invariant implies(forall(j, 0, rangeindex+1, !typeis(args[j], Opt)), s.level == level)
-//@   loop 1 invariant implies(forall(j, 0, rangeindex+1, !typeis(args[j], Opt)), s.useJSON == js && s.useColor == color)
+//@   loop 1 invariant implies(forall(j, 0, rangeindex+1, !typeis(args[j], Opt)), s.level == ite(parent != nil, old(parent.level), old(lvlCurrent)))
+//@   loop 1 invariant implies(forall(j, 0, rangeindex+1, !typeis(args[j], Opt)), s.useJSON == ite(parent != nil, old(parent.useJSON), false) && s.useColor == ite(parent != nil, old(parent.useColor), true))
 //@   loop 1 invariant implies(forall(j, 0, rangeindex+1, !typeis(args[j], Opt)), s.writer == nil && s.items == nil && s.extraFrames == 0 && len(s.contextKeys) == 0 && len(s.attrs) == 0)
 //@   loop 1 invariant implies(rangeindex < 1, len(todo) == 0)
 //@   loop 1 invariant implies(forall(j, 0, rangeindex+1, !typeis(args[j], Opt)), implies(rangeindex >= 0 && typeis(args[0], string), s.name == dyn(args[0], string)))
